@@ -377,6 +377,7 @@ def check(eng, res):
     from . import c11
 
     c11.draw_params(eng, res)
+    c11.law_finite(eng, res)
     c11.law_formulas(eng, res)
     from . import c10 as _c10
 
